@@ -96,6 +96,14 @@ def msLexical : List Member :=
 theorem link_lexical :
     (viewOf msLexical).map (fun fs => contentOf fs [116]) = some (some [82]) := by decide
 
+/-! link-target-through-link: {b/s1 -> ., b/e -> s1/b, file b/b/f} -/
+def msLinkThrough : List Member :=
+  [symM [98, 47, 115, 49] [46], symM [98, 47, 101] [115, 49, 47, 98], regM [98, 47, 98, 47, 102] [49]]
+
+theorem link_target_through_link :
+    (viewOf msLinkThrough).map (fun fs => (opensAsDir fs [98, 47, 101], idx fs [98, 47, 101, 47, 102], idx fs [98, 47, 98, 47, 102])) =
+      some (true, none, some 4) := by decide
+
 /-! sub-links: {file a/f, a/h hard link to a/f}, Sub("a") -/
 def msSubLinks : List Member := [regM [97, 47, 102] [100, 97, 116, 97], lnkM [97, 47, 104] [97, 47, 102]]
 
